@@ -23,6 +23,7 @@ type Clause struct {
 	File string
 	Line int
 	Used bool
+	Bind string // bind: ghost name
 }
 
 type ModLoc struct {
@@ -69,7 +70,7 @@ type ContractSet struct {
 	tinvs map[string][]*Clause // pkgpath + "." + type name -> invariants over `self`
 }
 
-var clauseRe = regexp.MustCompile(`^(requires|ensures|defines|modifies|inline|trusted|pure|noframe|loop|let|func|spec|replay|type|lemma)\b\s*(.*)$`)
+var clauseRe = regexp.MustCompile(`^(requires|ensures|defines|before|modifies|inline|trusted|pure|noframe|loop|let|func|spec|replay|type|lemma)\b\s*(.*)$`)
 
 func loadContracts(repo string) (*ContractSet, error) {
 	cs := &ContractSet{byKey: map[string]*Contract{}, specs: map[string]*SpecFunc{}, tinvs: map[string][]*Clause{}}
@@ -224,6 +225,31 @@ func (cs *ContractSet) parseFile(repo, path string) error {
 			cur.Clauses = append(cur.Clauses, c)
 			lastClause = c
 			last = &c.Src
+		case "before":
+			// before <callee> assert <expr>: a cut right before every call of the named function or method in this
+			// function's own body: the expression is an obligation there and a known fact afterwards
+			if cur == nil {
+				return fmt.Errorf("%s:%d: clause outside func", path, ln+1)
+			}
+			bp := strings.SplitN(rest, " ", 3)
+			if len(bp) < 3 || (bp[1] != "assert" && bp[1] != "bind") {
+				return fmt.Errorf("%s:%d: malformed clause, expected: before <callee> assert <expr> | bind <name> = <expr>", path, ln+1)
+			}
+			bc := &Clause{Kind: "assert", Name: bp[0], Src: bp[2], File: path, Line: ln + 1}
+			if bp[1] == "bind" {
+				// before <callee> bind <name> = <expr>: names the value of an expression over the function's locals at that
+				// point, for use in the postconditions (a ghost constant; meaningful on the paths through that call)
+				i := strings.Index(bp[2], "=")
+				if i < 0 {
+					return fmt.Errorf("%s:%d: bind without =", path, ln+1)
+				}
+				bc.Kind = "bind"
+				bc.Bind = strings.TrimSpace(bp[2][:i])
+				bc.Src = strings.TrimSpace(bp[2][i+1:])
+			}
+			cur.Clauses = append(cur.Clauses, bc)
+			lastClause = bc
+			last = &bc.Src
 		case "loop":
 			if cur == nil {
 				return fmt.Errorf("%s:%d: clause outside func", path, ln+1)
